@@ -11,9 +11,9 @@ def C(tech, text, note=""):
     return (tech, text + " Exploration, not proof: bounds in DESIGN.md section 4/7.", (note + " " if note else "") + TRUST)
 
 CLAIMED = {
-    "C01": C("proptest: generated programs vs reference interpreter (model-based differential)",
-             "Generated control-flow programs (nesting <= 5), every row compared with an independent reference interpreter written from the property statement.",
-             "Excludes let-rebinding of the innermost loop counter (statement ambiguous) and expression hazards (C10)."),
+    "C01": C("proptest: generated programs vs reference interpreter (model-based differential), incl. planted failing statements with the caller iterating on",
+             "Generated control-flow programs (nesting <= 5, wide-bus bits() up to 64), every row compared with an independent reference interpreter written from the property statement; a run-away next() (step fuel) is a violation; in a third of the cases statements that cannot be evaluated are planted and the sequential reading must go on after each error item.",
+             "Excludes let-rebinding of the innermost loop counter (statement ambiguous). Operands fully parenthesised, decimal literals, no variable named like a signal, constant device: what those vary is decided by C08, C20, C04."),
     "C02": C("proptest: generated programs + caller schedules, invariant over the driver call log",
              "Self-consistency between the recording driver's log and the yielded items, measured as the log delta of every API call (constructor, each next(), post-None calls, drop) for both driver types; closed formula for mid-clock row counts.",
              "Fault-free drivers only (faults are C13)."),
